@@ -375,6 +375,139 @@ Proof.
         rewrite (rfc_te_identity t Ht Eid). cbn. repeat split; try discriminate; auto.
 Qed.
 
+Lemma tables_keep_class x : (x < 256)%N ->
+  N.lor (tbl toUpperTable x) 32 = N.lor x 32 /\ N.lor (tbl toLowerTable x) 32 = N.lor x 32.
+Proof.
+  intros Hx.
+  pose proof (byte_forall (fun x => (N.lor (tbl toUpperTable x) 32 =? N.lor x 32)%N && (N.lor (tbl toLowerTable x) 32 =? N.lor x 32)%N)
+                ltac:(vm_compute; reflexivity) x Hx) as H.
+  apply andb_true_iff in H as [H1 H2]. split; now apply N.eqb_eq.
+Qed.
+
+Lemma nhk_cic s : wf_bytes s -> forall up t, cic (nhk_loop up s) t = cic s t.
+Proof.
+  induction s as [|x s IH]; intros Hs up t; [reflexivity|].
+  apply Forall_cons_iff in Hs as [Hx Hs]. cbn [nhk_loop cic]. destruct t as [|y t]; [reflexivity|].
+  destruct (tables_keep_class x Hx) as [H1 H2]. rewrite IH by exact Hs.
+  destruct up; [rewrite H1|rewrite H2]; reflexivity.
+Qed.
+Lemma nhk_first s : wf_bytes s -> forall up, first_lower (nhk_loop up s) = first_lower s.
+Proof.
+  destruct s as [|x s]; intros Hs up; [reflexivity|]. apply Forall_cons_iff in Hs as [Hx _].
+  cbn [nhk_loop first_lower]. destruct (tables_keep_class x Hx) as [H1 H2]. destruct up; assumption.
+Qed.
+
+
+(* ================= trailers cannot inject "Expect" ================= *)
+Lemma cic_refl a : cic a a = true.
+Proof. induction a as [|x a IH]; [reflexivity|]. cbn. now rewrite N.eqb_refl, IH. Qed.
+
+Lemma ivhk_wf : forall a s i r, ivhk_loop a s i = (true, r) -> wf_bytes a.
+Proof.
+  unfold wf_bytes. induction a as [|c a IH]; intros s i r; cbn [ivhk_loop]; [constructor|].
+  destruct (N.eqb_spec c SP) as [->|].
+  - intros H. constructor; [reflexivity|eauto].
+  - unfold validHeaderFieldByte. destruct (c <? 128)%N eqn:Ec; cbn [andb negb]; [|discriminate].
+    destruct (_ =? 1)%N; cbn [negb]; [|discriminate]. intros H. constructor; [lia|eauto].
+Qed.
+
+Lemma scan_next_key_wf b r k v inner r1 : scan_next b r = Ok (NKV k v inner r1) -> wf_bytes k.
+Proof.
+  unfold scan_next. intros H.
+  destruct (readContinuedLineSlice b r) as [cl| |]; cbn [bind] in H; try discriminate.
+  destruct cl as [r0|r0|kv colon r0]; try discriminate.
+  destruct kv as [|x kv]; [discriminate|].
+  destruct (slice (x :: kv) 0 colon) as [k0| |]; cbn [bind] in H; try discriminate.
+  destruct (slice (x :: kv) (colon + 1) _) as [v0| |]; cbn [bind] in H; try discriminate.
+  destruct (isValidHeaderKey k0) as [valid inn] eqn:Ev. destruct valid; cbn [negb] in H; [|discriminate].
+  injection H as <- _ _ _. destruct k0 as [|c k0]; [discriminate|]. eapply ivhk_wf; exact Ev.
+Qed.
+
+Lemma wf_drop_while_right k : wf_bytes k -> wf_bytes (trimTrailingSpace k).
+Proof.
+  unfold trimTrailingSpace, drop_while_right, wf_bytes. intros H. apply Forall_rev.
+  assert (Hr : Forall (fun x => (x < 256)%N) (rev k)) by now apply Forall_rev.
+  induction (rev k) as [|c l IH]; cbn; [constructor|]. inversion Hr; subst. destruct (is_sp_ht c); auto.
+Qed.
+
+Lemma bad_trailer_expect key dis : wf_bytes key -> isBadTrailer key = Ok false ->
+  normalizeHeaderKeyValidated key dis <> strExpect.
+Proof.
+  intros Hw Hb He.
+  assert (Hc : cic key strExpect = true).
+  { unfold normalizeHeaderKeyValidated in He. destruct dis; [rewrite He; apply cic_refl|].
+    rewrite <- (nhk_cic key Hw true). rewrite He. apply cic_refl. }
+  destruct key as [|k0 key']; [discriminate|].
+  assert (H0 : N.lor k0 32 = 101%N).
+  { unfold strExpect in Hc. cbn [cic] in Hc. apply andb_true_iff in Hc as [Hc _]. apply N.eqb_eq in Hc. exact Hc. }
+  unfold isBadTrailer in Hb. rewrite H0 in Hb.
+  repeat match type of Hb with context [N.eqb 101 ?x] =>
+    let v := eval vm_compute in (N.eqb 101 x) in change (N.eqb 101 x) with v in Hb end.
+  cbv iota in Hb. rewrite Hc in Hb. discriminate.
+Qed.
+
+Lemma trailer_loop_no_expect dn b : forall fuel r acc n tf,
+  Forall (fun kv => fst kv <> strExpect) acc ->
+  trailer_loop fuel dn b r acc = Ok (PTOk n tf) -> Forall (fun kv => fst kv <> strExpect) tf.
+Proof.
+  induction fuel as [|f IH]; intros r acc n tf Hacc H; cbn [trailer_loop] in H; [discriminate|].
+  destruct (scan_next b r) as [nx| |] eqn:Hn; cbn [bind] in H; try discriminate.
+  destruct nx as [k v inner r1|[e|] r1]; [|discriminate|injection H as _ <-; exact Hacc].
+  pose proof (wf_drop_while_right _ (scan_next_key_wf _ _ _ _ _ _ Hn)) as Hwk.
+  destruct (trimTrailingSpace k) as [|k0 kr] eqn:Ek; [eapply IH; eauto|].
+  destruct (isBadTrailer (k0 :: kr)) as [bad| |] eqn:Ebad; cbn [bind] in H; try discriminate.
+  destruct bad; [discriminate|]. destruct (negb (validValue v)); [discriminate|].
+  eapply IH; [|exact H]. unfold appendArg. apply Forall_app. split; [exact Hacc|].
+  constructor; [|constructor]. cbn [fst]. now apply bad_trailer_expect.
+Qed.
+
+Lemma peek_app_absent a b k : Forall (fun kv => fst kv <> k) b -> peekArgBytes (a ++ b) k = peekArgBytes a k.
+Proof.
+  intros Hb. induction a as [|[k' v'] a IH]; cbn [app peekArgBytes].
+  - induction b as [|[k' v'] b IHb]; [reflexivity|]. inversion Hb as [|? ? Hk Hb']; subst. cbn [peekArgBytes fst] in *.
+    destruct (beq k' k) eqn:E; [apply beq_eq in E; congruence|]. now apply IHb.
+  - destruct (beq k' k); [reflexivity|exact IH].
+Qed.
+
+Lemma no_expect_injection c hd b body rest tf :
+  read_req_body c hd b = RbOk body rest tf ->
+  peekArgBytes (fields hd ++ tf) strExpect = peekArgBytes (fields hd) strExpect.
+Proof.
+  intros H. apply peek_app_absent. revert H. unfold read_req_body.
+  match goal with |- (if ?x then _ else _) = _ -> _ => destruct x end; [discriminate|].
+  match goal with |- context [match ?x with [] => _ | _ :: _ => _ end] => destruct x as [|x0 bd] end.
+  - destruct (content_length hd =? -1)%Z.
+    + destruct (readBodyChunked (c_maxbody c) [] b) as [d r pk|e d pk| |] eqn:Er; try discriminate; [|destruct e; discriminate].
+      unfold read_trailer. destruct r as [|y r]; [discriminate|].
+      destruct (parse_trailer _ _) as [[n tf'| |]| |] eqn:Ep; try discriminate.
+      * intros [= _ _ <-]. unfold parse_trailer in Ep.
+        destruct (scan_init (firstn (c_bsize c) (y :: r)) 0) as [ir| |] eqn:Ei; cbn [bind] in Ep; try discriminate.
+        destruct ir as [| | | |b']; try discriminate; [injection Ep as _ <-; constructor|].
+        eapply (trailer_loop_no_expect _ b'); [constructor|exact Ep].
+      * match goal with |- context [if ?x then TrFail ESmallBuf else _] => destruct x end; discriminate.
+    + destruct (reqReadBody _ _ _ _) as [d r pk|e d pk| |]; try discriminate. intros [= _ _ <-]. constructor.
+  - destruct (peekArgBytes (fields hd) strContentEncoding).
+    + match goal with |- (if ?x then _ else _) = _ -> _ => destruct x end; [discriminate|].
+      destruct (Multipart.read_form _ _ _); [|discriminate]. intros [= _ _ <-]. constructor.
+    + destruct (reqReadBody _ _ _ _) as [d r pk|e d pk| |]; try discriminate. intros [= _ _ <-]. constructor.
+Qed.
+
+(* hence the serve loop's second MayContinue() never fires: the message is the first body read *)
+Definition head_expect (hd : req_head) : bool := beq (peekArgBytes (fields hd) strExpect) str100Continue.
+
+Lemma read_req_message_eq c hd b :
+  read_req_message c hd (head_expect hd) b =
+  match read_req_body c hd b with
+  | RbOk body rest _ => RmOk body rest false
+  | RbFail e => RmFail e false
+  | RbEof => RmEof false
+  | RbBug => RmBug
+  end.
+Proof.
+  unfold read_req_message. destruct (read_req_body c hd b) as [body rest tf|e| |] eqn:E; try reflexivity.
+  rewrite (no_expect_injection _ _ _ _ _ _ E). unfold head_expect. now rewrite andb_negb_l.
+Qed.
+
 (* ================= the serve loop ================= *)
 
 
@@ -407,7 +540,7 @@ Definition serve_iter (c : fcfg) (rem : bytes) : iter_res :=
           | Uri.UOk _ =>
               if c_getonly c && negb (is_get_or_head (meth hd)) then ItStop
               else match read_req_body c hd (skipn n rem) with
-                   | RbOk body rest => ItDisp hd n body rest
+                   | RbOk body rest _ => ItDisp hd n body rest
                    | _ => ItStop
                    end
           end
@@ -431,7 +564,9 @@ Proof.
   destruct (req_head_parse (hcfg_of c) (firstn (c_bsize c) rem)) as [[hd n]| |e| |]; try reflexivity.
   - destruct (Uri.parse (host hd) (target hd)); [|reflexivity].
     destruct (c_getonly c && negb (is_get_or_head (meth hd))); [reflexivity|].
-    destruct (read_req_body c hd (skipn n rem)) as [body rest|e| |]; try (rewrite disp_pre; reflexivity); [|reflexivity].
+    change (beq (peekArgBytes (fields hd) strExpect) str100Continue) with (head_expect hd).
+    rewrite read_req_message_eq.
+    destruct (read_req_body c hd (skipn n rem)) as [body rest tf|e| |]; try (rewrite disp_pre; reflexivity); [|reflexivity].
     rewrite disp_pre, disp_cons_d, disp_cons_r. unfold mk_disp. f_equal.
     destruct (conn_close hd); [reflexivity|].
     destruct ((0 <? length rem - length rest) && (length rem - length rest <=? length rem)); reflexivity.
@@ -540,7 +675,7 @@ Proof.
     unfold readBodyIdentity. intros H. apply rbi_loop_rest in H. subst r. apply suffix_nil.
 Qed.
 
-Lemma read_req_body_suffix c hd b body rest : read_req_body c hd b = RbOk body rest -> suffix rest b.
+Lemma read_req_body_suffix c hd b body rest tf : read_req_body c hd b = RbOk body rest tf -> suffix rest b.
 Proof.
   unfold read_req_body.
   match goal with |- (if ?x then _ else _) = _ -> _ => destruct x end; [discriminate|].
@@ -548,35 +683,35 @@ Proof.
   - destruct (Z.eqb_spec (content_length hd) (-1)) as [E|E].
     + destruct (readBodyChunked (c_maxbody c) [] b) as [d r pk|e d pk| |] eqn:Er; try discriminate.
       * unfold read_trailer. destruct r as [|y r]; [discriminate|].
-        destruct (parse_trailer _) as [[n| |]| |]; try discriminate.
-        -- intros [= _ <-]. eapply suffix_trans; [apply suffix_skipn|]. eapply readBodyChunked_suffix; eauto.
+        destruct (parse_trailer _ _) as [[n tf'| |]| |]; try discriminate.
+        -- intros [= _ <- _]. eapply suffix_trans; [apply suffix_skipn|]. eapply readBodyChunked_suffix; eauto.
         -- match goal with |- context [if ?x then TrFail ESmallBuf else _] => destruct x end; discriminate.
       * destruct e; discriminate.
     + destruct (reqReadBody trailer_reject (content_length hd) (c_maxbody c) b) as [d r pk|e d pk| |] eqn:Er; try discriminate.
-      intros [= _ <-]. eapply reqReadBody_suffix; eauto.
+      intros [= _ <- _]. eapply reqReadBody_suffix; eauto.
   - destruct (peekArgBytes (fields hd) strContentEncoding).
     + match goal with |- (if ?x then _ else _) = _ -> _ => destruct x end; [discriminate|].
       destruct (Multipart.read_form _ _ _); [|discriminate].
-      intros [= _ <-]. apply suffix_skipn.
+      intros [= _ <- _]. apply suffix_skipn.
     + assert (Hpos : (content_length hd >? 0)%Z = true).
       { destruct (content_length hd >? 0)%Z; [reflexivity|]. cbn in Eb. discriminate. }
       destruct (reqReadBody trailer_reject (content_length hd) (c_maxbody c) b) as [d r pk|e d pk| |] eqn:Er; try discriminate.
-      intros [= _ <-]. eapply reqReadBody_suffix; eauto. lia.
+      intros [= _ <- _]. eapply reqReadBody_suffix; eauto. lia.
 Qed.
 
 Lemma serve_iter_inv c rem hd n body rest :
   serve_iter c rem = ItDisp hd n body rest ->
   rem <> [] /\ req_head_parse (hcfg_of c) (firstn (c_bsize c) rem) = HOk (hd, n) /\
   (c_getonly c = true -> is_get_or_head (meth hd) = true) /\
-  read_req_body c hd (skipn n rem) = RbOk body rest.
+  exists tf, read_req_body c hd (skipn n rem) = RbOk body rest tf.
 Proof.
   unfold serve_iter. destruct rem as [|x rem']; [discriminate|]. set (rem := x :: rem').
   destruct (req_head_parse _ _) as [[hd' n']| |e| |]; try discriminate.
   destruct (Uri.parse _ _); [|discriminate].
   destruct (c_getonly c) eqn:Eg; cbn [andb].
   - destruct (is_get_or_head (meth hd')) eqn:Em; cbn [negb]; [|discriminate].
-    destruct (read_req_body _ _ _) eqn:Er; try discriminate. intros [= <- <- <- <-]. repeat split; auto. discriminate.
-  - destruct (read_req_body _ _ _) eqn:Er; try discriminate. intros [= <- <- <- <-]. repeat split; auto; discriminate.
+    destruct (read_req_body _ _ _) eqn:Er; try discriminate. intros [= <- <- <- <-]. repeat split; eauto. discriminate.
+  - destruct (read_req_body _ _ _) eqn:Er; try discriminate. intros [= <- <- <- <-]. repeat split; eauto; discriminate.
 Qed.
 
 Lemma skipn_skipn' {A} a b (l : list A) : skipn a (skipn b l) = skipn (b + a) l.
@@ -608,7 +743,7 @@ Proof.
   - rewrite disp_serve_0 in Hn. destruct i; discriminate.
   - rewrite disp_serve_S in *. set (rem := skipn off s) in *.
     destruct (serve_iter c rem) as [|hd n body rest] eqn:Hit; [destruct i; discriminate|].
-    apply serve_iter_inv in Hit as (Hne & Hp & _ & Hb).
+    apply serve_iter_inv in Hit as (Hne & Hp & _ & tf0 & Hb).
     apply read_req_body_suffix in Hb.
     assert (Hsuf : suffix rest rem) by (eapply suffix_trans; [exact Hb|apply suffix_skipn]).
     destruct (suffix_length _ _ Hsuf) as [Hle Hrest].
@@ -896,8 +1031,8 @@ Proof.
     unfold bdrop, btake, blen in *. subst cl. replace (Z.to_nat (Z.of_N k)) with (N.to_nat k) by lia. cbn [app]. repeat split; auto. lia.
 Qed.
 
-Lemma read_req_body_fixed c hd b body rest k :
-  read_req_body c hd b = RbOk body rest ->
+Lemma read_req_body_fixed c hd b body rest tf k :
+  read_req_body c hd b = RbOk body rest tf ->
   (content_length hd = Z.of_N k \/ (k = 0%N /\ content_length hd = (-2)%Z)) ->
   rest = skipn (N.to_nat k) b /\ N.to_nat k <= length b /\ (body = None \/ body = Some (firstn (N.to_nat k) b)).
 Proof.
@@ -926,35 +1061,13 @@ Definition set_reduce (b : bool) (c : fcfg) : fcfg :=
 Lemma serve_reduce_indep b c : forall fuel rem off, serve fuel (set_reduce b c) rem off = serve fuel c rem off.
 Proof.
   induction fuel as [|f IH]; intros rem off; [reflexivity|].
-  cbn [serve]. unfold read_req_body. cbn [set_reduce c_bsize c_getonly c_noprep c_maxbody c_nonorm hcfg_of].
+  cbn [serve]. unfold read_req_message, read_req_body. cbn [set_reduce c_bsize c_getonly c_noprep c_maxbody c_nonorm hcfg_of].
   change (hcfg_of (set_reduce b c)) with (hcfg_of c).
   repeat (match goal with |- context [match ?x with _ => _ end] => destruct x end; try reflexivity);
     rewrite ?IH; reflexivity.
 Qed.
 
 (* ---------- which fields are Content-Length / Transfer-Encoding does not depend on DisableHeaderNamesNormalizing ---------- *)
-Lemma tables_keep_class x : (x < 256)%N ->
-  N.lor (tbl toUpperTable x) 32 = N.lor x 32 /\ N.lor (tbl toLowerTable x) 32 = N.lor x 32.
-Proof.
-  intros Hx.
-  pose proof (byte_forall (fun x => (N.lor (tbl toUpperTable x) 32 =? N.lor x 32)%N && (N.lor (tbl toLowerTable x) 32 =? N.lor x 32)%N)
-                ltac:(vm_compute; reflexivity) x Hx) as H.
-  apply andb_true_iff in H as [H1 H2]. split; now apply N.eqb_eq.
-Qed.
-
-Lemma nhk_cic s : wf_bytes s -> forall up t, cic (nhk_loop up s) t = cic s t.
-Proof.
-  induction s as [|x s IH]; intros Hs up t; [reflexivity|].
-  apply Forall_cons_iff in Hs as [Hx Hs]. cbn [nhk_loop cic]. destruct t as [|y t]; [reflexivity|].
-  destruct (tables_keep_class x Hx) as [H1 H2]. rewrite IH by exact Hs.
-  destruct up; [rewrite H1|rewrite H2]; reflexivity.
-Qed.
-Lemma nhk_first s : wf_bytes s -> forall up, first_lower (nhk_loop up s) = first_lower s.
-Proof.
-  destruct s as [|x s]; intros Hs up; [reflexivity|]. apply Forall_cons_iff in Hs as [Hx _].
-  cbn [nhk_loop first_lower]. destruct (tables_keep_class x Hx) as [H1 H2]. destruct up; assumption.
-Qed.
-
 Lemma key_class_norm_indep cfg cfg' k inner : wf_bytes k ->
   is_cl_key cfg k inner = is_cl_key cfg' k inner /\ is_te_key cfg k inner = is_te_key cfg' k inner.
 Proof.
@@ -988,14 +1101,14 @@ Lemma serve_dispatch_full c s : forall fuel off i d,
   nth_error (disp (serve fuel c (skipn off s) off)) i = Some d ->
   exists hd, req_head_parse (hcfg_of c) (dp_win d) = HOk (hd, dp_hlen d) /\
     dp_close d = conn_close hd /\ dp_method d = meth hd /\ dp_uri d = target hd /\
-    read_req_body c hd (skipn (dp_off d + dp_hlen d) s) = RbOk (dp_body d) (skipn (dp_off d + dp_len d) s).
+    exists tf, read_req_body c hd (skipn (dp_off d + dp_hlen d) s) = RbOk (dp_body d) (skipn (dp_off d + dp_len d) s) tf.
 Proof.
   induction fuel as [|f IH]; intros off i d Hoff Hn.
   - rewrite disp_serve_0 in Hn. destruct i; discriminate.
   - rewrite disp_serve_S in *. set (rem := skipn off s) in *.
     destruct (serve_iter c rem) as [|hd n body rest] eqn:Hit; [destruct i; discriminate|].
-    apply serve_iter_inv in Hit as (Hne & Hp & _ & Hb).
-    pose proof (read_req_body_suffix _ _ _ _ _ Hb) as Hsf.
+    apply serve_iter_inv in Hit as (Hne & Hp & _ & tf0 & Hb).
+    pose proof (read_req_body_suffix _ _ _ _ _ _ Hb) as Hsf.
     assert (Hsuf : suffix rest rem) by (eapply suffix_trans; [exact Hsf|apply suffix_skipn]).
     destruct (suffix_length _ _ Hsuf) as [Hle Hrest].
     assert (Hlen : length rem = length s - off) by (unfold rem; apply skipn_length).
@@ -1005,7 +1118,7 @@ Proof.
     assert (Hrest' : rest = skipn (off + len) s) by (rewrite Hrest; unfold rem; apply skipn_skipn').
     destruct i as [|i]; cbn [nth_error] in Hn.
     + injection Hn as <-. cbn [mk_disp dp_win dp_off dp_len dp_hlen dp_close dp_method dp_uri dp_body]. fold rem. fold len.
-      exists hd. repeat split; auto.
+      exists hd. repeat split; auto. exists tf0.
       unfold rem in Hb. rewrite skipn_skipn' in Hb. rewrite <- Hrest'. exact Hb.
     + destruct (conn_close hd); [destruct i; discriminate|].
       destruct ((0 <? len) && (len <=? length rem)); [|destruct i; discriminate].
@@ -1027,7 +1140,7 @@ Proof.
   pose proof (dispatched_window_wf _ _ _ _ Hs Hn) as Hw.
   pose proof Hn as Hn1. rewrite serve_frames_unfold in Hn1.
   destruct (serve_offsets _ _ _ _ _ _ (Nat.le_0_l _) Hn1) as (Hwin & Hbound & Hh & _).
-  destruct (serve_dispatch_full _ _ _ _ _ _ (Nat.le_0_l _) Hn1) as (hd & Hp & _ & Hm & Hu & Hb).
+  destruct (serve_dispatch_full _ _ _ _ _ _ (Nat.le_0_l _) Hn1) as (hd & Hp & _ & Hm & Hu & tfd & Hb).
   split.
   - apply HeadTotalProof.req_head_no_overread in Hp as [Hl _]. rewrite Hwin in Hl.
     rewrite <- (firstn_skipn (c_bsize c) (skipn (dp_off d) s)).
@@ -1036,7 +1149,7 @@ Proof.
     exists line, l. split; [exact Hf|]. split; [congruence|]. split; [congruence|].
     rewrite Hv in Hlen.
     destruct (d_len _) as [| |k]; try exact I.
-    destruct (read_req_body_fixed _ _ _ _ _ k Hb Hlen) as (Hr & Hk & Hbody).
+    destruct (read_req_body_fixed _ _ _ _ _ _ k Hb Hlen) as (Hr & Hk & Hbody).
     split; [|exact Hbody].
     assert (E : length (skipn (dp_off d + dp_len d) s) = length (skipn (N.to_nat k) (skipn (dp_off d + dp_hlen d) s))) by (now rewrite Hr).
     rewrite !skipn_length in E. rewrite skipn_length in Hk. lia.
